@@ -24,6 +24,8 @@
 //!       every file a command removed, captured at the moment of its removal — is scanned for the needles and for JSON
 //!       field names; key files must never contain the master key's secret strings; all four non-key file types must have
 //!       been seen.  -> `ok` | `oracle-fail:plaintext-in-<type>-after-<cmd>` | …
+//!  * `sites`               the `write_bytes` call sites of the CURRENT source (tools/c04_write_sites.py on <repo>/crates/core/src)
+//!       vs the model's table `Model/WriteSites.lean` (theorem `every_non_key_write_is_encrypted`) -> `ok <lines joined by ;>`
 //!  * `tamper <seed>`       oracle only: every stored non-key file × {bit flips at first/last/middle/random positions,
 //!       truncation, extension}: the affected read fails or returns the original content, never other content.
 //!  * `swap snapshot <seed>` exchange the stored bytes of two snapshot files and read the first id: returns the second
@@ -148,6 +150,8 @@ pub fn generate(thorough: bool, rng: &mut Rng, ops: &mut Vec<String>, stats: &mu
         stats.hit("tamper");
     }
     ops.push(format!("c04 swap snapshot {}", rng.below(1 << 40)));
+    ops.push("c04 sites".to_string());
+    stats.hit("sites");
 }
 
 // ------------------------------------------------------------------ msg
@@ -598,6 +602,30 @@ fn exec_scan(seed: u64) -> String {
 }
 
 
+
+// ------------------------------------------------------------------ sites: the write call sites of the current source
+
+fn exec_sites() -> String {
+    let verif = std::path::Path::new(env!("CARGO_MANIFEST_DIR")).parent().map(std::path::Path::to_path_buf).unwrap_or_default();
+    let repo_dir = std::env::var("VERIF_REPO").map(std::path::PathBuf::from).unwrap_or_else(|_| verif.parent().map(|p| p.join("repo")).unwrap_or_default());
+    let out = std::process::Command::new("python3")
+        .arg(verif.join("tools").join("c04_write_sites.py"))
+        .arg(repo_dir.join("crates").join("core").join("src"))
+        .output();
+    match out {
+        Ok(o) if o.status.success() => {
+            let txt = String::from_utf8_lossy(&o.stdout);
+            let lines: Vec<&str> = txt.lines().filter(|l| !l.is_empty()).collect();
+            if lines.iter().any(|l| l.contains(" unknown:")) {
+                // a write whose content has no recognised origin: not shown to be ciphertext
+                return format!("oracle-fail:unclassified-write-site {}", lines.iter().find(|l| l.contains(" unknown:")).unwrap());
+            }
+            format!("ok {}", lines.join(";"))
+        }
+        _ => "oracle-fail:site-scan-did-not-run".into(),
+    }
+}
+
 // ------------------------------------------------------------------ hist: scan after every command
 
 const NEEDLES2: [&[u8]; 3] = [b"NEEDLE-DESC-aa11", b"NEEDLE-CMD-bb22", b"NEEDLE-TAG2-cc33"];
@@ -941,6 +969,7 @@ pub fn exec(t: &[&str]) -> String {
         },
         ["keys", script] => exec_keys(script),
         ["scan", seed] => seed.parse::<u64>().map_or("bad-op".into(), exec_scan),
+        ["sites"] => exec_sites(),
         ["hist", seed] => seed.parse::<u64>().map_or("bad-op".into(), exec_hist),
         ["tamper", seed] => seed.parse::<u64>().map_or("bad-op".into(), exec_tamper),
         ["swap", "snapshot", seed] => seed.parse::<u64>().map_or("bad-op".into(), exec_swap),
